@@ -19,7 +19,7 @@ def run(ctx, out):
     out.assumptions = [
         "Thespian semantics as reproduced by harness/simactor.py (FIFO per pair, run-to-completion handlers)",
         "race control is an endpoint that keeps the metrics payloads of TaskFinished/BenchmarkComplete (what BenchmarkCoordinator.bulk_add receives); the in-memory metrics store is used",
-        "downsampling factor 1 in the model (factor > 1 is not modelled); POST_PROCESS_INTERVAL_SECONDS is set to 2 so that periodic post-processing interleaves with short races",
+        "downsampling factor 1 in the model; factor 2/3 is checked by re-running recorded races with the same schedule and seed (only whole requests may lose their records, throughput records identical); POST_PROCESS_INTERVAL_SECONDS is set to 2 so that periodic post-processing interleaves with short races",
         "each sample is identified by the wire request that produced it (id carried in the request meta data by the harness runner)",
     ]
     rc.model_check(out, ["RaceDriver.c07.quick.cfg", "RaceDriver.c07.q1.cfg"] if ctx.quick else ["RaceDriver.c07.quick.cfg", "RaceDriver.c07.q1.thorough.cfg", "RaceDriver.c07.thorough.cfg"], timeout=3000)
@@ -54,6 +54,62 @@ def run(ctx, out):
     last = some[1]["events"][-1]
     out.sample({"scenario": some[0]["scn"], "final_record_table": last.get("final", [])[:6], "rc_payloads": [m["k"] + ":" + str(len(m["ids"])) for m in last["st"]["rcbox"]]})
     out.note("leg C2S: %d races, %d traces accepted by TLC" % (len(jobs), out.traces_validated))
+    downsampling_leg(ctx, out, index)
+
+
+def downsampling_leg(ctx, out, index):
+    """Explicit downsampling factor: re-run completed races with the same schedule and seed and factor 2 / 3; only the number of
+    request records may shrink (per request all three records or none), throughput records must be identical."""
+    import random
+
+    from .. import racetrace, tracecheck
+    from ..core import Violation
+
+    picked = [tid for tid in sorted(index) if index[tid][0]["qmax"] >= 100 and index[tid][1]["thr"]][: (6 if ctx.quick else 40)]
+    items = []
+    cases = {}
+    for n, tid in enumerate(picked):
+        job, trace = index[tid]
+        f = 2 + n % 2
+        script = [(e["ev"], e["arg"]) for e in trace["events"] if e["ev"] != "Hang"]
+        runs = {}
+        for factor in (1, f):
+            tr = racetrace.TracedRace(job["scn"], seed=job["seed"], test_mode=job["test_mode"], offsets=job.get("offsets"), downsample=factor)
+            try:
+                tr.start()
+                tr.run(script, random.Random(job["seed"] * 7919 + 13), max_events=job.get("max_events", 400))
+                runs[factor] = {
+                    "done": tr.done(),
+                    "evs": [(e["ev"], e["arg"]) for e in tr.events],
+                    "rows": [{"lat": r["lat"], "svc": r["svc"], "proc": r["proc"]} for r in tr.final_table()] if tr.done() else [],
+                    "thr": [[str(x) for x in d] for d in tr.throughput_docs()] if tr.done() else [],
+                }
+            finally:
+                tr.close()
+        # both runs must be the very same schedule (downsampling does not influence control flow); otherwise nothing is compared
+        if not (runs[1]["done"] and runs[f]["done"]) or runs[1]["evs"] != runs[f]["evs"]:
+            out.note("downsampling leg: pair %s not comparable (schedules differ), skipped" % tid)
+            continue
+        rows = runs[f]["rows"]
+        thr = runs[f]["thr"]
+        trace = dict(trace, thr=runs[1]["thr"], events=[{"final": runs[1]["rows"]}])
+        item = {"id": "ds%d" % n, "f": f, "n": len(trace["events"][-1].get("final", [])), "rows": rows, "thrEqual": thr == trace["thr"]}
+        if thr != trace["thr"]:
+            item["thr_factor1"] = trace["thr"][:6]
+            item["thr_factorf"] = thr[:6]
+        items.append(item)
+        cases[item["id"]] = {"scn": job["scn"], "seed": job["seed"], "test_mode": job["test_mode"], "qmax": 100, "offsets": job.get("offsets"), "decisions": script, "downsample": f}
+        out.add_case(("downsample", f, job["scn"], script))
+    if not items:
+        raise tlc.MachineryError("downsampling leg: no completed race to re-run")
+    v = tracecheck.validate("RaceDriver", "TraceDownsample", "TraceDownsample.cfg", items, name="c07ds")
+    out.traces_validated += v.accepted(len(items))
+    for tid, fails in v.l1.items():
+        clauses = sorted({c for _, cl in fails for c in cl})
+        out.violations.append(Violation(",".join(clauses), cases[tid], signature={"clauses": clauses, "leg": "downsampling"}, detail="downsampling factor %d" % cases[tid]["downsample"]))
+    out.extra["downsampled_races"] = len(items)
+    out.extra["downsampled_sample"] = items[0]
+    out.note("downsampling leg: %d races re-run with factor 2/3, %d accepted" % (len(items), v.accepted(len(items))))
 
 
 def replay(ctx, case):
